@@ -347,10 +347,10 @@ class EvoWorklist(BaseWorklist):
             else:
                 label = f"{lvh_extra} LVH steps"
         if destination == source:
-            source.condense_log(nsteps * 2, label=label)
+            source.condense_log(nsteps * 2, label=label, verbatim=True)
         else:
-            source.condense_log(nsteps, label=label)
-            destination.condense_log(nsteps, label=label)
+            source.condense_log(nsteps, label=label, verbatim=True)
+            destination.condense_log(nsteps, label=label, verbatim=True)
         return
 
 
